@@ -10,8 +10,10 @@ package proxymux
 //	LS / LH      ListenSOCKS() / ListenHTTP()            (sub-listener ids = creation order)
 //	X<t>         sub-listener t .Close()
 //	A<t>         start an Accept() on sub-listener t (at most one outstanding per listener)
-//	C<c>=<hex>   the base listener's Accept returns conn c; its client will send <hex>
-//	B<c>         the client of conn c sends its bytes (empty payload = the client hangs up)
+//	C<c>=<chunks> the base listener's Accept returns conn c; its client will send the
+//	             comma-separated hex chunks, one Read result each ("-" = an empty chunk, i.e. a
+//	             (0,nil) read — also BEFORE the detection byte; "." = nothing), then EOF
+//	B<c>         the client of conn c sends its chunks
 //	E            the base listener's Accept fails (EMFILE-like)
 //	late<c>=<hex> conn c is returned by base.Accept() at the moment base.Close() is called
 //	             (accepted by the kernel just before the port is closed)
@@ -49,9 +51,9 @@ import (
 
 type c18FakeConn struct {
 	id       int
-	payload  []byte
+	payload  []byte   // all chunks concatenated: what the client sent
+	chunks   [][]byte // what is still to be delivered, one chunk per Read at most
 	mu       sync.Mutex
-	off      int
 	release  chan struct{}
 	released bool
 	hangup   bool
@@ -67,14 +69,18 @@ func (c *c18FakeConn) Read(p []byte) (int, error) {
 	if c.closed {
 		return 0, net.ErrClosed
 	}
-	if c.hangup || c.off >= len(c.payload) {
+	if c.hangup || len(c.chunks) == 0 {
 		return 0, io.EOF
 	}
-	if len(p) == 0 {
-		return 0, nil
+	// the read semantics of a net.Pipe end: at most the rest of the current Write; an empty
+	// Write is a (0,nil) read; a zero-length buffer takes nothing of a non-empty Write
+	cur := c.chunks[0]
+	n := copy(p, cur)
+	if n == len(cur) {
+		c.chunks = c.chunks[1:]
+	} else {
+		c.chunks[0] = cur[n:]
 	}
-	n := copy(p, c.payload[c.off:])
-	c.off += n
 	return n, nil
 }
 
@@ -186,7 +192,11 @@ func c18RunHistory(op string) (out string, oracle []string) {
 	outstanding := map[int]bool{}
 
 	newConn := func(id int, hexPayload string) *c18FakeConn {
-		c := &c18FakeConn{id: id, payload: vh.UnHex(hexPayload), release: make(chan struct{})}
+		c := &c18FakeConn{id: id, release: make(chan struct{})}
+		for _, ch := range vh.ParseChunks(hexPayload) {
+			c.chunks = append(c.chunks, ch)
+			c.payload = append(c.payload, ch...)
+		}
 		conns[id] = c
 		return c
 	}
@@ -276,7 +286,7 @@ func c18RunHistory(op string) (out string, oracle []string) {
 			}
 		case tok[0] == 'B':
 			if id, err := strconv.Atoi(tok[1:]); err == nil && conns[id] != nil {
-				conns[id].send(len(conns[id].payload) == 0)
+				conns[id].send(false)
 			}
 		default:
 			return "bad-op", nil
@@ -347,7 +357,7 @@ func c18RunHistory(op string) (out string, oracle []string) {
 				want = "socks"
 			}
 			if kinds[call.sub] != want {
-				oracle = append(oracle, fmt.Sprintf("routing: conn %d (first byte %02x) was delivered to the %s listener", id, c.payload[0], kinds[call.sub]))
+				oracle = append(oracle, fmt.Sprintf("routing: conn %d (client sent %s) was delivered to the %s listener", id, vh.Hex(c.payload), kinds[call.sub]))
 			}
 			if !bytes.Equal(call.got, c.payload) {
 				oracle = append(oracle, fmt.Sprintf("conn %d: handler read %s, client sent %s", id, vh.Hex(call.got), vh.Hex(c.payload)))
@@ -510,10 +520,12 @@ func (m *c18Mux) Run(op string) vh.Result {
 	return vh.Result{Out: parts[0], Oracle: parts[1:], NonTrivial: strings.Contains(parts[0], "=d") || strings.Contains(parts[0], "=x")}
 }
 
+// c18Payload draws what a client sends, as the chunks in which the conn delivers it:
+// often with empty chunks — (0,nil) reads — in FRONT of the detection byte.
 func c18Payload(r *vh.RNG) string {
 	n := r.Pick([]int{0, 1, 1, 2, 3, 6})
 	if n == 0 {
-		return "-"
+		return []string{"-", ".", "-,-"}[r.Intn(3)]
 	}
 	b := r.Bytes(n)
 	switch r.Intn(4) {
@@ -522,7 +534,23 @@ func c18Payload(r *vh.RNG) string {
 	case 2:
 		b[0] = byte(r.Pick([]int{'C', 'G', 4, 6, 0, 0x16}))
 	}
-	return vh.Hex(b)
+	var chunks [][]byte
+	switch r.Intn(3) {
+	case 0:
+		chunks = [][]byte{b}
+	case 1: // one or two empty reads before the first byte, the rest in one piece
+		chunks = append(chunks, []byte{})
+		if r.Bool() {
+			chunks = append(chunks, []byte{})
+		}
+		chunks = append(chunks, b)
+	default:
+		if r.Bool() {
+			chunks = append(chunks, []byte{})
+		}
+		chunks = append(chunks, r.Chunk(b)...)
+	}
+	return vh.Chunks(chunks)
 }
 
 func (m *c18Mux) Gen(r *vh.RNG, n int, emit func(op string, tags ...string)) {
@@ -535,6 +563,8 @@ func (m *c18Mux) Gen(r *vh.RNG, n int, emit func(op string, tags ...string)) {
 		{"mux LS C0=0501 B0 A0 late1=0502 X0", "conn-accepted-at-close"},
 		{"mux LS LH C0=47 B0 late1=05 X0 X1", "conn-accepted-at-close"},
 		{"mux LS LH A0 A1 C0=0501 B0 C1=47 B1", "both"},
+		{"mux LS LH A0 A1 C0=-,0501 B0 C1=-,-,47,45 B1", "empty-read-before-first-byte"},
+		{"mux LS LH C0=-,05,-,01 B0 C1=-,16 B1 A1 A0", "empty-read-before-first-byte"},
 		{"mux LS X0 LS A1 C0=05 B0", "re-register"},
 		{"mux LS A0 X0 LS", "close-with-accept-outstanding"},
 	}
@@ -576,7 +606,11 @@ func (m *c18Mux) Gen(r *vh.RNG, n int, emit func(op string, tags ...string)) {
 				nconn++
 			}
 		}
-		emit("mux "+strings.Join(toks, " "), "random")
+		tag := "random"
+		if strings.Contains(strings.Join(toks, " "), "=-,") {
+			tag = "random-empty-read-first"
+		}
+		emit("mux "+strings.Join(toks, " "), tag)
 	}
 }
 
